@@ -47,7 +47,12 @@ def _tx_key(eng, x, st):
 # level / notes per property; functions and lemmas come from the props tags on the contracts
 PROPS = {
     'C02': dict(level='proof', explanation="value post-conditions of the validators and of the unspent-set appliers"),
-    'C03': dict(level='proof', explanation="whole-view post-condition of add_block_no_validation; appliers as functions"),
+    'C03': dict(level='exploration', native=['native.c03'],
+                explanation="PROOF part: whole-view post-condition of add_block_no_validation (every earlier entry is the old "
+                            "one; no write to the state value), uto_apply_block as a fold of uto_apply_transaction, lemma "
+                            "C03.replay (the set stored at a block is the fold along its own ancestors, for every arrival "
+                            "order and fork shape). BOUNDED part (not a proof): per-key balances versus unspent sets and "
+                            "immutability of balance maps obtained earlier, on enumerated trees with spends"),
     'C04': dict(level='proof',
                 explanation="whole-view post-condition of CoinState.add_block_no_validation proved from source; lemma "
                             "C04.fork-choice: the representation invariant (ids, tree, head = first-seen of greatest height, "
@@ -76,10 +81,7 @@ def plan_for(prop):
     functions = [q for q, c in cs.contracts.items() if prop in c.props and not c.trusted]
     trusted = ["%s (assumed: %s)" % (q, c.trusted_reason) for q, c in cs.contracts.items() if prop in c.props and c.trusted]
     lemmas = [n for (n, props, _f) in cs.lemmas if prop in props]
-    native = []
-    for modname in cfg.get('native', []):
-        mod = importlib.import_module(modname)
-        native.append(mod.run)
+    native = list(cfg.get('native', []))
     return dict(cfg, functions=functions, trusted=trusted, lemmas=lemmas, native=native)
 
 
